@@ -66,6 +66,18 @@ func (w *c12Writer) Write(b []byte) (int, error) {
 	}
 	return w.body.Write(b)
 }
+// like net/http's *response the writer implements io.ReaderFrom and io.StringWriter, so wrappers
+// that forward to such fast paths are exercised
+func (w *c12Writer) ReadFrom(src io.Reader) (int64, error) {
+	b, err := io.ReadAll(src)
+	if len(b) == 0 {
+		return 0, err
+	}
+	n, _ := w.Write(b)
+	return int64(n), err
+}
+func (w *c12Writer) WriteString(s string) (int, error) { return w.Write([]byte(s)) }
+
 func (w *c12Writer) Flush() {
 	if w.commits == 0 {
 		w.WriteHeader(200)
@@ -87,12 +99,51 @@ func (p c12Probe) ServeHTTP(w http.ResponseWriter, r *http.Request) (int, error)
 		return p.Next.ServeHTTP(w, r)
 	}
 	f := strings.Split(script, ":")
-	wrote := func(st, body string) {
+	if f[0] == "file" {
+		return p.Next.ServeHTTP(w, r) // the static file server answers
+	}
+	wrote := func(st, body string, cl bool, mode string) {
+		b := hx.UnH(body)
+		if cl {
+			w.Header().Set("Content-Length", strconv.Itoa(len(b)))
+		}
 		if st != "-" {
 			code, _ := strconv.Atoi(st)
 			w.WriteHeader(code)
 		}
-		w.Write(hx.UnH(body))
+		switch mode {
+		case "c":
+			// the struct hides bytes.Reader's WriteTo: io.Copy looks for ReaderFrom on w
+			io.Copy(w, struct{ io.Reader }{bytes.NewReader(b)})
+		case "s":
+			io.WriteString(w, string(b))
+		case "wf":
+			w.Write(b)
+			w.(http.Flusher).Flush()
+		case "fw":
+			// Flush first (commits 200, so only used with the implicit status), then Write
+			w.(http.Flusher).Flush()
+			w.Write(b)
+		case "nw":
+			// every wrapper must still offer the optional interfaces of the connection's writer
+			_, okF := w.(http.Flusher)
+			cn, okC := w.(http.CloseNotifier)
+			pu, okP := w.(http.Pusher)
+			_, okH := w.(http.Hijacker)
+			_, okR := w.(io.ReaderFrom)
+			if !okF || !okC || !okH {
+				w.Write([]byte("MISSING-OPTIONAL-INTERFACE"))
+				return
+			}
+			_ = okR // ReaderFrom is an optimisation, wrappers may hide it
+			cn.CloseNotify()
+			if okP { // only HTTP/2 connections (and casket's wrappers) offer Push
+				pu.Push("/c12-push", nil)
+			}
+			w.Write(b)
+		default:
+			w.Write(b)
+		}
 	}
 	var err error
 	switch f[0] {
@@ -103,7 +154,10 @@ func (p c12Probe) ServeHTTP(w http.ResponseWriter, r *http.Request) (int, error)
 		}
 		return s, err
 	case "write":
-		wrote(f[1], f[2])
+		if len(f) != 7 {
+			return 500, errors.New("bad probe script")
+		}
+		wrote(f[1], f[2], f[5] == "1", f[6])
 		if f[3] == "1" {
 			err = errors.New("probe failed")
 		}
@@ -111,7 +165,7 @@ func (p c12Probe) ServeHTTP(w http.ResponseWriter, r *http.Request) (int, error)
 	case "panic":
 		panic("probe panic before writing")
 	case "panicafter":
-		wrote(f[1], f[2])
+		wrote(f[1], f[2], false, "w")
 		panic("probe panic after writing")
 	}
 	return 500, errors.New("bad probe script")
@@ -122,6 +176,17 @@ var (
 	c12Dir   string
 	c12Insts = map[string]*casket.Instance{}
 )
+
+// template sources used as written bodies and as files: only {{.Method}} is used as an action
+// that renders, so the harness can compute the rendered text itself
+var c12Bodies = map[string]string{
+	"plain":  "PROBE-BODY-1 just text, forty bytes or more, no actions\n",
+	"tok":    "<p>method={{.Method}}</p> a template that parses and executes fine\n",
+	"tparse": "<p>{{.Method</p> a template that does not even parse ............\n",
+	"texec":  "<p>" + strings.Repeat("x", 60) + `{{.Include "c12-missing.html"}}</p> parses, fails in Execute` + "\n",
+}
+
+func c12Render(src []byte) []byte { return bytes.ReplaceAll(src, []byte("{{.Method}}"), []byte("GET")) }
 
 const c12Custom = "CUSTOM-404-PAGE\n"
 const c12Follow = "FOLLOWUP-OK\n"
@@ -154,6 +219,10 @@ func c12Setup() error {
 		}
 		os.WriteFile(filepath.Join(c12Dir, "404.html"), []byte(c12Custom), 0o644)
 		os.WriteFile(filepath.Join(c12Dir, "ok.txt"), []byte(c12Follow), 0o644)
+		for k, b := range c12Bodies {
+			os.WriteFile(filepath.Join(c12Dir, "f-"+k+".html"), []byte(b), 0o644)
+			os.WriteFile(filepath.Join(c12Dir, "f-"+k+".bin"), []byte(b), 0o644)
+		}
 	}
 	return err
 }
@@ -258,8 +327,14 @@ func c12Chunks(b []byte, inner []byte, enc bool) []string {
 	}
 	var out []string
 	usedInner := false
+	rendered := c12Render(inner)
 	for len(b) > 0 {
 		switch {
+		case !usedInner && len(inner) > 0 && !bytes.Equal(rendered, inner) && bytes.HasPrefix(b, rendered):
+			out = append(out, pfx+"rendered:"+hx.H(inner))
+			b = b[len(rendered):]
+			usedInner = true
+			continue
 		case !usedInner && len(inner) > 0 && bytes.HasPrefix(b, inner):
 			out = append(out, pfx+"inner:"+hx.H(inner))
 			b = b[len(inner):]
@@ -333,6 +408,37 @@ func c12Classify(ce string, raw []byte, inner []byte) string {
 	return strings.Join(segs, "+")
 }
 
+// c12PathAndBody: the request path for a case and the bytes the innermost handler writes.
+func c12PathAndBody(pathField, script string) (string, []byte, bool) {
+	ext := ".html"
+	if pathField != "html" {
+		ext = ".bin"
+	}
+	sp := strings.Split(script, ":")
+	switch sp[0] {
+	case "file":
+		if len(sp) != 3 {
+			return "", nil, false
+		}
+		b, known := c12Bodies[sp[1]]
+		if !known || hx.HS(b) != sp[2] {
+			return "", nil, false // the case must describe the file
+		}
+		return "/f-" + sp[1] + ext, []byte(b), true
+	case "write":
+		if len(sp) != 7 {
+			return "", nil, false
+		}
+		return "/x" + ext, hx.UnH(sp[2]), true
+	case "panicafter":
+		if len(sp) != 3 {
+			return "", nil, false
+		}
+		return "/x" + ext, hx.UnH(sp[2]), true
+	}
+	return "/x" + ext, nil, true
+}
+
 func c12Eval(f []string) (string, []string) {
 	if len(f) != 4 {
 		return "bad-case", nil
@@ -341,23 +447,29 @@ func c12Eval(f []string) (string, []string) {
 	if err != nil {
 		return "setup-error:" + err.Error(), nil
 	}
-	path := "/x.html"
-	if f[1] != "html" {
-		path = "/x.bin"
+	path, inner, ok := c12PathAndBody(f[1], f[3])
+	if !ok {
+		return "bad-case", nil
 	}
 	r := httptest.NewRequest("GET", "http://127.0.0.1"+path, nil)
 	r.Header.Set("X-Probe", f[3])
 	if f[2] == "1" {
 		r.Header.Set("Accept-Encoding", "gzip")
 	}
-	var inner []byte
 	sp := strings.Split(f[3], ":")
-	if (sp[0] == "write" || sp[0] == "panicafter") && len(sp) >= 3 {
-		inner = hx.UnH(sp[2])
-	}
 	w := &c12Writer{h: http.Header{}}
 	srv.ServeHTTP(w, r)
-	out := fmt.Sprintf("%d %d %s", w.commits, w.status, c12Body(w, inner))
+	cl := "-"
+	if w.snap != nil {
+		if v := w.snap.Values("Content-Length"); len(v) > 0 {
+			if len(v) == 1 && v[0] == strconv.Itoa(w.body.Len()) {
+				cl = "="
+			} else {
+				cl = "!"
+			}
+		}
+	}
+	out := fmt.Sprintf("%d %d %s %s", w.commits, w.status, cl, c12Body(w, inner))
 
 	// the server keeps serving: a plain request right after
 	fw := &c12Writer{h: http.Header{}}
@@ -384,17 +496,30 @@ var c12Semantic = []string{"log", "gzip", "header", "templates"}
 var c12ErrModes = []string{"", "errors:plain", "errors:page404", "errors:visible"}
 var c12Transparent = []string{"limits", "request_id", "rewrite", "status", "mime", "internal"}
 
+func c12Write(st, kind string, e int, cl int, mode string) string {
+	return fmt.Sprintf("write:%s:%s:%d:%s:%d:%s", st, hx.HS(c12Bodies[kind]), e, kind, cl, mode)
+}
+
 func c12Inners() []string {
 	body := hx.HS("PROBE-BODY-1")
 	long := hx.HS(strings.Repeat("probe body line\n", 40))
-	return []string{
+	out := []string{
 		"ret:404:0", "ret:404:1", "ret:500:1", "ret:403:0", "ret:503:1", "ret:400:0",
 		"ret:0:0", "ret:200:0", "ret:301:0",
-		"write:200:" + body + ":0", "write:-:" + body + ":0", "write:404:" + body + ":0", "write:500:" + long + ":0",
-		"write:200:" + body + ":1", "write:-:" + long + ":1", "write:201:" + body + ":1",
+		"write:500:" + long + ":0:plain:0:w", "write:-:" + long + ":1:plain:1:c", "write:200:" + body + ":0:plain:0:s",
 		"panic",
 		"panicafter:200:" + body, "panicafter:-:" + body, "panicafter:404:" + long,
 	}
+	// bodies that are templates (render fine / do not parse / fail while executing) or plain, with
+	// and without an explicit Content-Length, written with Write, io.Copy, io.WriteString, Write+Flush
+	for _, k := range []string{"plain", "tok", "tparse", "texec"} {
+		out = append(out,
+			c12Write("200", k, 0, 1, "w"), c12Write("-", k, 0, 0, "c"), c12Write("404", k, 0, 1, "s"),
+			c12Write("201", k, 1, 1, "w"), c12Write("200", k, 0, 0, "wf"), c12Write("-", k, 0, 1, "c"),
+			c12Write("-", k, 0, 1, "fw"), c12Write("200", k, 0, 0, "nw"),
+			"file:"+k+":"+hx.HS(c12Bodies[k]))
+	}
+	return out
 }
 
 func c12Gen(g *hx.Gen) {
@@ -479,7 +604,7 @@ func c12Gen(g *hx.Gen) {
 		case 1:
 			in = fmt.Sprintf("ret:%d:0", hx.Pick(g.Rng, []int{0, 200, 204, 301, 302, 304}))
 		case 2:
-			in = fmt.Sprintf("write:%s:%s:%d", st, hx.H(body), g.Rng.Intn(2))
+			in = fmt.Sprintf("write:%s:%s:%d:plain:%d:%s", st, hx.H(body), g.Rng.Intn(2), g.Rng.Intn(2), hx.Pick(g.Rng, []string{"w", "c", "s", "wf", "nw"}))
 		case 3:
 			in = "panic"
 		default:
@@ -495,10 +620,10 @@ func c12Gen(g *hx.Gen) {
 // A real net/http client talks to the listener casket.Start opened: the request with the probe
 // script, then a plain request on the same keep-alive connection, then one on a fresh connection.
 
-func c12Get(tr *http.Transport, addr, path, probe string, ae bool) (int, string, []byte, error) {
+func c12Get(tr *http.Transport, addr, path, probe string, ae bool) (int, string, string, []byte, error) {
 	req, err := http.NewRequest("GET", "http://"+addr+path, nil)
 	if err != nil {
-		return 0, "", nil, err
+		return 0, "", "", nil, err
 	}
 	req.Host = "127.0.0.1"
 	if probe != "" {
@@ -509,14 +634,11 @@ func c12Get(tr *http.Transport, addr, path, probe string, ae bool) (int, string,
 	}
 	res, err := tr.RoundTrip(req)
 	if err != nil {
-		return 0, "", nil, err
+		return 0, "", "", nil, err
 	}
 	defer res.Body.Close()
 	b, err := io.ReadAll(res.Body)
-	if err != nil {
-		return res.StatusCode, res.Header.Get("Content-Encoding"), b, err
-	}
-	return res.StatusCode, res.Header.Get("Content-Encoding"), b, nil
+	return res.StatusCode, res.Header.Get("Content-Encoding"), res.Header.Get("Content-Length"), b, err
 }
 
 func c12LiveEval(f []string) (string, []string) {
@@ -532,26 +654,26 @@ func c12LiveEval(f []string) (string, []string) {
 		return "setup-error:no listener", nil
 	}
 	addr := sl[0].Addr().String()
-	path := "/x.html"
-	if f[1] != "html" {
-		path = "/x.bin"
+	path, inner, ok := c12PathAndBody(f[1], f[3])
+	if !ok {
+		return "bad-case", nil
 	}
-	var inner []byte
 	sp := strings.Split(f[3], ":")
-	if (sp[0] == "write" || sp[0] == "panicafter") && len(sp) >= 3 {
-		inner = hx.UnH(sp[2])
-	}
 	tr := &http.Transport{DisableCompression: true, MaxIdleConnsPerHost: 1}
 	defer tr.CloseIdleConnections()
-	st, ce, body, err := c12Get(tr, addr, path, f[3], f[2] == "1")
+	st, ce, declared, body, err := c12Get(tr, addr, path, f[3], f[2] == "1")
 	out := ""
 	if err != nil {
-		out = fmt.Sprintf("%d ERR:%s", st, strings.ReplaceAll(err.Error(), " ", "_"))
+		out = fmt.Sprintf("%d ! ERR:%s", st, strings.ReplaceAll(err.Error(), " ", "_"))
 	} else {
-		out = fmt.Sprintf("%d %s", st, c12Classify(ce, body, inner))
+		cl := "ok"
+		if declared != "" && declared != strconv.Itoa(len(body)) {
+			cl = "!"
+		}
+		out = fmt.Sprintf("%d %s %s", st, cl, c12Classify(ce, body, inner))
 	}
 	follow := func(t *http.Transport) string {
-		st, _, b, err := c12Get(t, addr, "/ok.txt", "", false)
+		st, _, _, b, err := c12Get(t, addr, "/ok.txt", "", false)
 		if err != nil || st != 200 || string(b) != c12Follow {
 			return "bad"
 		}
@@ -566,8 +688,13 @@ func c12LiveEval(f []string) (string, []string) {
 
 func c12LiveGen(g *hx.Gen) {
 	body := hx.HS("PROBE-BODY-1")
-	inners := []string{"ret:404:1", "ret:500:0", "ret:0:0", "write:200:" + body + ":0", "write:-:" + body + ":1", "write:404:" + body + ":0",
+	inners := []string{"ret:404:1", "ret:500:0", "ret:0:0", "write:-:" + body + ":1:plain:0:w",
 		"panic", "panicafter:200:" + body, "panicafter:-:" + body}
+	for _, k := range []string{"plain", "tok", "tparse", "texec"} {
+		inners = append(inners, c12Write("200", k, 0, 1, "w"), c12Write("404", k, 0, 1, "c"), c12Write("-", k, 0, 0, "wf"),
+			c12Write("-", k, 0, 1, "fw"), c12Write("200", k, 0, 0, "nw"),
+			"file:"+k+":"+hx.HS(c12Bodies[k]))
+	}
 	for m := 0; m < 1<<len(c12Semantic); m++ {
 		for _, em := range c12ErrModes {
 			var stack []string
